@@ -644,7 +644,25 @@ func repoCmd(args []string) error {
 						r.Diverge(row.Op+"|refused-but-changed|"+d+"|error="+errClass(opErr), fmt.Sprintf("%s returned %q but changed %s", row.Op, normErr(opErr), d), cs)
 					}
 				}
-				if prop == "C28" && row.Exp.Verdict == "ok" {
+				// C28: where git refuses (and so changes nothing), the index entries and the remaining files
+			// (untracked ones included) after go-git's refusal must be git's, i.e. the ones before the call
+			if prop == "C28" && row.Exp.Verdict == "refuse" {
+				what := ""
+				for _, p := range rw.paths {
+					if post.Idx[p] != pre.Idx[p] {
+						what = "index"
+					} else if post.Wt[p] != pre.Wt[p] && what == "" {
+						what = "files:" + shape(row, p)
+					}
+				}
+				if what == "" && len(post.Extra) != len(pre.Extra) {
+					what = "files:extra-path"
+				}
+				if what != "" {
+					r.Diverge(row.Op+"|refused-like-git-but-changed|"+what, fmt.Sprintf("%s returned %q (git refuses too and changes nothing) but changed %s", row.Op, normErr(opErr), what), cs)
+				}
+			}
+			if prop == "C28" && row.Exp.Verdict == "ok" {
 					r.Diverge(row.Op+"|unexpected-error|"+errClass(opErr), fmt.Sprintf("%s failed (%v) where git succeeds", row.Op, normErr(opErr)), cs)
 				}
 				rw.close()
